@@ -436,40 +436,69 @@ def port_modes(names, name):
     return list(range(i, i + names.count(name)))
 
 
-def intended_mapping(L, R, ms):
-    """-> (dict left mode -> right mode) or None when the documentation calls the mapping illegal"""
+def intended_pairs(L, R, ms):
+    """the (left mode, right mode) pairs the documentation gives to a mapping, item by item, or None when an item
+    cannot be read (unknown port, sizes that do not match, a port name on a bare component, an odd type).  An int
+    key stands for that one mode whatever the value is (an int, a one-entry list, the name of a one-mode port)."""
     rm = moi_modes(R)
     f = ms["form"]
-    pairs = []
     if f == "int":
         if not isinstance(ms["v"], int):
             return None
-        pairs = [(ms["v"] + i, rm[i]) for i in range(len(rm))]
-    elif f in ("list", "tuple"):
+        return [(ms["v"] + i, rm[i]) for i in range(len(rm))]
+    if f in ("list", "tuple"):
         if len(ms["v"]) != len(rm) or not all(isinstance(x, int) for x in ms["v"]):
             return None
-        pairs = list(zip(ms["v"], rm))
-    else:
-        for k, v in ms["items"]:
-            if isinstance(k, int) and isinstance(v, int):
-                pairs.append((k, v))
-            elif isinstance(k, str):
-                lk = port_modes(L["raw_out_names"], k)
-                if lk is None:
-                    return None
-                if isinstance(v, int):
-                    rv = [v]
-                elif isinstance(v, list):
-                    rv = v
-                else:
-                    if R["comp"]:
-                        return None
-                    rv = port_modes(R["raw_in_names"], v)
-                if rv is None or len(rv) != len(lk):
-                    return None
-                pairs += list(zip(lk, rv))
-            else:
+        return list(zip(ms["v"], rm))
+    pairs = []
+    for k, v in ms["items"]:
+        if isinstance(k, bool) or isinstance(v, bool):
+            return None
+        if isinstance(k, int):
+            lk = [k]
+        elif isinstance(k, str):
+            lk = port_modes(L["raw_out_names"], k)
+        else:
+            return None
+        if lk is None:
+            return None
+        if isinstance(v, int):
+            rv = [v]
+        elif isinstance(v, list):
+            rv = v
+            if not all(isinstance(x, int) and not isinstance(x, bool) for x in rv):
                 return None
+        elif isinstance(v, str):
+            if R["comp"]:
+                return None
+            rv = port_modes(R["raw_in_names"], v)
+        else:
+            return None
+        if rv is None or len(rv) != len(lk):
+            return None
+        pairs += list(zip(lk, rv))
+    return pairs
+
+
+def names_mode_twice(L, R, ms):
+    """a dictionary mapping whose items give a value to the same left mode more than once (a port name and one of
+    its modes, say).  The documentation says nothing about it (the code keeps the last value): such a mapping is
+    not judged by the direct oracle, model and code are only compared with each other."""
+    if ms["form"] in ("int", "list", "tuple"):
+        return False
+    pairs = intended_pairs(L, R, ms)
+    if pairs is None:
+        return False
+    keys = [k for k, _ in pairs]
+    return len(set(keys)) != len(keys)
+
+
+def intended_mapping(L, R, ms):
+    """-> (dict left mode -> right mode) or None when the documentation calls the mapping illegal"""
+    rm = moi_modes(R)
+    pairs = intended_pairs(L, R, ms)
+    if pairs is None:
+        return None
     keys = [k for k, _ in pairs]
     vals = [v for _, v in pairs]
     if len(pairs) != len(rm) or len(set(keys)) != len(keys) or len(set(vals)) != len(vals):
@@ -562,6 +591,50 @@ def oracle_book(L, R, mp, after, keep_port):
     return None
 
 
+def canon_ports(ports):
+    """[[start, size, name, is_herald, expected]] sorted by first mode (anonymous herald names canonicalised)"""
+    return sorted([[int(x[0]), int(x[1]), canon_name(x[2]), bool(x[3]), int(x[4])] for x in ports])
+
+
+def oracle_ports(L, R, mp, after):
+    """direct reading of "wires it exactly there" for port names: on either side, no two ports of the result overlap,
+    and a port that was not on the left processor is a port of the added processor sitting, mode by mode and in order,
+    on the left modes the mapping wired to its modes.  -> None or (signature, text)"""
+    wire_inv = {v: k for k, v in mp.items()}
+    for i, h in enumerate(R["heralds"]):
+        wire_inv[h[0]] = L["cs"] + i
+    for side in ("inp", "outp"):
+        old = {(x[0], x[1], x[2]) for x in L[side] if not x[3]}
+        rports = [x for x in R[side] if not x[3]]
+        taken = {}
+        for q in after[side]:
+            for m in range(q[0], q[0] + q[1]):
+                if m in taken:
+                    return ("port-overlap", f"{side}: ports {taken[m]!r} and {q[2]!r} both sit on mode {m} after the add")
+                taken[m] = q[2]
+            if q[3] or (q[0], q[1], q[2]) in old:
+                continue
+            cands = [x for x in rports if x[1] == q[1] and x[2] == q[2]]
+            if not any(all(wire_inv.get(x[0] + j) == q[0] + j for j in range(x[1])) for x in cands):
+                return ("port-misplaced",
+                        f"{side}: port {q[2]!r} sits on modes {list(range(q[0], q[0] + q[1]))} of the result, which are "
+                        f"not the modes the mapping wired to a port of that name and size of the added object "
+                        f"(right-hand ports {[(x[2], x[0], x[1]) for x in rports]}, wiring right->left {wire_inv})")
+    return None
+
+
+def names_check(ask, o, when):
+    """the model of in_port_names / out_port_names on the REAL port lists of a processor -> None or failure tuple"""
+    if not any(not x[3] for x in o["inp"] + o["outp"]) and (o["cs"] * 7 + len(o["heralds"])) % 5:
+        return None      # herald-only processors: one in five (their names are compared after every add anyway)
+    rep = ask({"op": "names", "cs": o["cs"], "inp": o["inp"], "outp": o["outp"]})
+    for side, key, rk in (("inp", "raw_in_names", "in_names"), ("outp", "raw_out_names", "out_names")):
+        if "err" in rep or rep.get(rk) != o[key]:
+            return ("broken", "port-names-model", f"{when}: {rk} of the real processor are {o[key]} but the model of "
+                                                  f"the names property gives {rep.get(rk, rep)} on its ports {o[side]}")
+    return None
+
+
 def pullback(s, L, R, mp):
     t = [0] * R["cs"]
     for k, v in mp.items():
@@ -574,15 +647,15 @@ def pullback(s, L, R, mp):
 # ------------------------------------------------------------------------------------------------
 # one step = one Processor.add
 # ------------------------------------------------------------------------------------------------
-def lean_request(L, R, ms, keep_port, lps, rps, states, fix_name=True, fix_ps=True, fix_ports=True):
+def lean_request(L, R, ms, keep_port, lps, rps, states, fix_name=True, fix_ps=True, fix_ports=True, fix_skip=True):
     def side(o, ps):
         return {"comp": o["comp"], "m": o["m"], "cs": o["cs"],
                 "conn": o.get("avail", o.get("conn", [True] * o["cs"])),
                 "heralds": o["heralds"], "dets": o["dets"], "outp": o["outp"], "inp": o["inp"],
                 "out_names": o.get("raw_out_names") or [], "in_names": o.get("raw_in_names") or [],
                 "ps": ps, "U": core.mat(o["U"].tolist())}
-    return {"fix_name": fix_name, "fix_ps": fix_ps, "fix_ports": fix_ports, "left": side(L, lps), "right": side(R, rps), "map": ms, "keep_port": keep_port,
-            "states": states}
+    return {"fix_name": fix_name, "fix_skip": fix_skip, "fix_ps": fix_ps, "fix_ports": fix_ports, "left": side(L, lps),
+            "right": side(R, rps), "map": ms, "keep_port": keep_port, "states": states}
 
 
 def canon_reply_names(names):
@@ -632,6 +705,9 @@ def compare_model(rep, after, tt_real, states):
         diffs.append(f"in_names model={rep['in_names']} real={after['in_names']}")
     if canon_reply_names(rep["out_names"]) != after["out_names"]:
         diffs.append(f"out_names model={rep['out_names']} real={after['out_names']}")
+    for side in ("inp", "outp"):
+        if side in rep and canon_ports(rep[side]) != canon_ports(after[side]):
+            diffs.append(f"{side} ports model={canon_ports(rep[side])} real={canon_ports(after[side])}")
     mu = np.array(core.unmat(rep["U"]), dtype=complex)
     if mu.shape != after["U"].shape or not np.allclose(mu, after["U"], rtol=core.TOL, atol=core.TOL):
         diffs.append("U")
@@ -650,20 +726,23 @@ def agrees(rep, err, after, tt_real, states):
     return "err" not in rep and not compare_model(rep, after, tt_real, states)
 
 
+DEFECT_FLAGS = (("intkey-skipped", "fix_skip"), ("portname-int", "fix_name"), ("postselect-renamed", "fix_ps"),
+                ("port-stretched", "fix_ports"))
+
+
 def attribute(mk_req, ask, err, after, tt_real, states):
-    """The repaired model disagrees with the real code.  If the model of the code *as found* (one of the two
-    recorded defects switched back on) reproduces the real outcome exactly, the disagreement is that defect."""
-    for name, flags in (("portname-int", dict(fix_name=False)), ("postselect-renamed", dict(fix_ps=False)),
-                        ("port-stretched", dict(fix_ports=False)),
-                        ("postselect-renamed+port-stretched", dict(fix_ps=False, fix_ports=False)),
-                        ("portname-int+postselect-renamed+port-stretched",
-                         dict(fix_name=False, fix_ps=False, fix_ports=False))):
-        if agrees(ask(mk_req(**flags)), err, after, tt_real, states):
-            return name
+    """The repaired model disagrees with the real code.  If the model of the code *as found* (some of the recorded
+    defects switched back on; single ones first) reproduces the real outcome exactly, the disagreement is that defect."""
+    for size in range(1, len(DEFECT_FLAGS) + 1):
+        for combo in itertools.combinations(DEFECT_FLAGS, size):
+            if agrees(ask(mk_req(**{flag: False for _, flag in combo})), err, after, tt_real, states):
+                return "+".join(name for name, _ in combo)
     return None
 
 
 DEFECT_TEXT = {
+    "intkey-skipped": "a dictionary item with an int key and a list / port-name value ({0: [1]}, {0: 'port'}) is silently "
+                      "ignored by resolve: the mapping is judged on its other items only",
     "port-stretched": "a multi-mode port of the added processor is re-attached on port_mode..port_mode+m-1 whatever the "
                       "mapping did to its other modes (it can cover a new herald mode: _add_herald then raises)",
     "portname-int": "a {'port name': mode} item on a one-mode port is stored and then refused as "
@@ -704,9 +783,24 @@ def run_step(p, L, lps, st, ask, reuse_obj=None, R_pre=None):
             tb = tb.tb_next
     mp = intended_mapping(L, R, ms)
     info["legal"] = mp is not None
-    rep = ask(mk_req())
+    unjudged = names_mode_twice(L, R, ms)
+    info["unjudged"] = unjudged
+    if ms["form"] == "dict":
+        rep, rq = ask([mk_req(), dict(mk_req(), op="resolve")])
+    else:
+        rep, rq = ask(mk_req()), None
     info["rep"] = rep
     nomodel = bool(rep.get("nomodel"))
+    if ms["form"] == "dict":
+        # the closed form of the dictionary branch (allPairs) against the documented reading of every item
+        closed = rq.get("closed") or {}
+        want = intended_pairs(L, R, ms)
+        info["pairs"] = want
+        got = closed.get("pairs") if closed.get("types") else None
+        if (want is None) != (got is None) or (want is not None and [list(x) for x in want] != got):
+            return (("broken", "closed-form-pairs",
+                     f"dictionary mapping {ms['items']}: the documented reading of its items is {want}, the closed "
+                     f"form of the model gives {closed}"), L, lps, info)
     if err is not None:
         info["err"] = err
         if nomodel:
@@ -714,9 +808,13 @@ def run_step(p, L, lps, st, ask, reuse_obj=None, R_pre=None):
                 return (("violation", "legal-mapping-rejected", f"{ms} rejected with {err}"), L, lps, info)
             return None, None, None, info
         if mp is not None and err in RESOLVE_ERRS:
-            return (("violation", "legal-mapping-rejected-" + where,
+            sig, why = "legal-mapping-rejected-" + where, ""
+            if rep.get("err") != err and has_intkey_item(ms) and \
+                    (attribute(mk_req, ask, err, None, None, states) or "").startswith("intkey-skipped"):
+                sig, why = "intkey-skipped", ": " + DEFECT_TEXT["intkey-skipped"]
+            return (("violation", sig,
                      f"mapping {ms} names available distinct modes of the right size but the real API raised {err} "
-                     f"in {where}"), L, lps, info)
+                     f"in {where}{why}"), L, lps, info)
         if mp is not None and not ps_excuse(L, R, mp, lps, rps) and "err" not in rep:
             cause = attribute(mk_req, ask, err, None, None, states)
             if cause is None:
@@ -770,17 +868,28 @@ def run_step(p, L, lps, st, ask, reuse_obj=None, R_pre=None):
                                              f"through {ms.get('v', ms.get('items'))}")
         if bad is not None:
             return (bad, None, None, info)
-    if mp is None:
+    bad = names_check(ask, after, "after the accepted add")
+    if bad is not None:
+        return (bad, None, None, info)
+    if mp is None and not unjudged:
         if "err" in rep or nomodel:
+            cause = attribute(mk_req, ask, None, after, truth_table(p, states) if states else None, states)
+            if cause is not None:
+                return (("violation", cause.split("+")[0],
+                         f"mapping {ms} is illegal (size / duplicate / unavailable modes) but was accepted: "
+                         + DEFECT_TEXT[cause.split("+")[0]]), after, None, info)
             return (("violation", "illegal-mapping-accepted",
                      f"mapping {ms} is illegal (size / duplicate / unavailable modes) but was accepted"),
                     after, None, info)
         return (("broken", "illegal-accepted-by-both", f"mapping {ms}: oracle says illegal, model and code accept"),
                 after, None, info)
-    # direct oracle first
-    bad = oracle_wiring(L, R, mp, after) or oracle_book(L, R, mp, after, keep_port)
+    # direct oracle first (a mapping that gives two values to one left mode is not judged: model vs code only)
     tt_real = truth_table(p, states) if states else None
-    if bad is None and (rps is not None or lps is not None):
+    bad = None
+    if mp is not None:
+        bad = oracle_wiring(L, R, mp, after) or oracle_book(L, R, mp, after, keep_port) or \
+            oracle_ports(L, R, mp, after)
+    if mp is not None and bad is None and (rps is not None or lps is not None):
         if not after["has_ps"]:
             bad = ("postselect-lost", "the post-selection disappeared in the composition")
         else:
@@ -815,6 +924,13 @@ def run_step(p, L, lps, st, ask, reuse_obj=None, R_pre=None):
                      + DEFECT_TEXT[cause.split("+")[0]]), after, None, info)
         return (("broken", "model-rejects", f"model predicts {rep['err']} but the real API accepted"), after, None, info)
     diffs = compare_model(rep, after, tt_real, states)
+    if mp is not None and not R["comp"] and rep.get("pull") is not None:
+        # the left mode the carried-over post-selection reads for every right-hand mode is the wiring
+        wire_inv = {v: k for k, v in mp.items()}
+        for i, h in enumerate(R["heralds"]):
+            wire_inv[h[0]] = L["cs"] + i
+        if any(v >= len(rep["pull"]) or rep["pull"][v] != k for v, k in wire_inv.items()):
+            diffs.append(f"pull-wiring model={rep['pull']} wiring right->left={wire_inv}")
     if diffs:
         cause = attribute(mk_req, ask, None, after, tt_real, states)
         if cause is not None:
@@ -865,7 +981,8 @@ def _run_scenario(scn, ask, on_step=None):
         L = _observe_built(p, "the left processor")
     except Unusable as e:
         return ("violation", "composed-processor-unusable", str(e))
-    bad = availability_failure(p, L, "on the left processor as declared")
+    bad = availability_failure(p, L, "on the left processor as declared") or \
+        names_check(ask, L, "on the left processor as declared")
     if bad is not None:
         return bad
     L["cs0"] = L["cs"]
@@ -1143,6 +1260,204 @@ def name_items(items, L, R, rng):
     return out
 
 
+def has_intkey_item(ms):
+    return ms["form"] == "dict" and any(isinstance(k, int) and not isinstance(v, int) for k, v in ms["items"])
+
+
+def item_form(k, v):
+    return ("name" if isinstance(k, str) else "int") + "-" + \
+           ("name" if isinstance(v, str) else "list" if isinstance(v, list) else "int")
+
+
+# ---- dictionary mappings written through every key form ---------------------------------------------------------
+DICT_FAULTS = ("unknown-left", "unknown-right", "imbalanced", "name-int-multimode", "name-on-component",
+               "twice-same", "twice-other", "intkey-extra", "intkey-extra-name")
+
+
+def dict_forms(items, L, R, rng, fault=None):
+    """Rewrite the int->int pairs `items` of a dictionary mapping through every key form the objects allow
+    ('port': int, 'port': [modes], 'port': 'port', int: [mode], int: 'port'), then inject `fault` (if it applies):
+    -> (items, fault actually injected or None)"""
+    lo, ri = L["raw_out_names"] or [], (R.get("raw_in_names") or [])
+    d = dict(items)
+    out, used = [], set()
+    for k, v in items:
+        if k in used:
+            continue
+        name = lo[k] if isinstance(k, int) and 0 <= k < len(lo) else ""
+        ks = port_modes(lo, name) if name else None
+        if ks and all(x in d for x in ks) and not any(x in used for x in ks) and rng.random() < 0.8:
+            vs = [d[x] for x in ks]
+            rname = ri[vs[0]] if isinstance(vs[0], int) and 0 <= vs[0] < len(ri) else ""
+            u = rng.random()
+            if rname and not R["comp"] and port_modes(ri, rname) == vs and u < 0.45:
+                out.append([name, rname])
+            elif len(ks) == 1 and u < 0.7:
+                out.append([name, vs[0]])
+            else:
+                out.append([name, vs])
+            used.update(ks)
+            continue
+        rname = ri[v] if isinstance(v, int) and 0 <= v < len(ri) else ""
+        u = rng.random()
+        if rname and not R["comp"] and port_modes(ri, rname) == [v] and u < 0.3:
+            out.append([k, rname])
+        elif u < 0.55:
+            out.append([k, [v]])
+        else:
+            out.append([k, v])
+        used.add(k)
+    done = None
+    rm = moi_modes(R) if not R["comp"] else list(range(R["m"]))
+    free_left = [k for k in range(L["cs"]) if L["avail"][k] and k not in d]
+    if fault == "unknown-left" and out:
+        i = rng.randrange(len(out))
+        out[i] = ["nope", out[i][1]]
+        done = fault
+    elif fault == "unknown-right" and out and not R["comp"]:
+        i = rng.randrange(len(out))
+        out[i] = [out[i][0], "rnope"]
+        done = fault
+    elif fault == "imbalanced" and out:
+        i = rng.randrange(len(out))
+        k, v = out[i]
+        vs = v if isinstance(v, list) else ([v] if isinstance(v, int) else port_modes(ri, v) or [0])
+        vs = vs + [rng.choice(rm)] if (rng.random() < 0.5 or len(vs) == 1) else vs[:-1]
+        out[i] = [k, vs]
+        done = fault
+    elif fault == "name-int-multimode":
+        cands = [i for i, (k, v) in enumerate(out) if isinstance(k, str) and len(port_modes(lo, k) or []) > 1]
+        if cands:
+            i = rng.choice(cands)
+            v = out[i][1]
+            out[i] = [out[i][0], (v[0] if isinstance(v, list) else rng.choice(rm))]
+            done = fault
+    elif fault == "name-on-component" and out and R["comp"]:
+        i = rng.randrange(len(out))
+        out[i] = [out[i][0], "x"]
+        done = fault
+    elif fault in ("twice-same", "twice-other"):
+        cands = [(k, v) for k, v in items if isinstance(k, int)]
+        named = [i for i, (k, _) in enumerate(out) if isinstance(k, str)]
+        if cands and named:
+            # a mode of a port named as a whole is given a value again, as an int key (after or before the port item)
+            i = rng.choice(named)
+            ks = port_modes(lo, out[i][0])
+            k = rng.choice(ks)
+            v = d[k] if fault == "twice-same" else rng.choice(rm)
+            extra = [k, v] if rng.random() < 0.6 else [k, [v]]
+            out.insert(rng.choice([i, i + 1, len(out)]), extra)
+            done = fault
+    elif fault in ("intkey-extra", "intkey-extra-name"):
+        # one more item, on a free left mode, written with an int key and a list / port-name value: the mapping now
+        # has one pair too many
+        if free_left:
+            k = rng.choice(free_left)
+            one = [n for n in dict.fromkeys(ri) if n and len(port_modes(ri, n)) == 1] if not R["comp"] else []
+            if fault == "intkey-extra-name" and one:
+                out.insert(rng.randrange(len(out) + 1), [k, rng.choice(one)])
+                done = fault
+            elif fault == "intkey-extra":
+                out.insert(rng.randrange(len(out) + 1), [k, [rng.choice(rm + [len(ri) + 1])]])
+                done = fault
+    return out, done
+
+
+def gen_left_ports(rng, max_cs):
+    """a left processor carrying one-mode and two-mode ports (output side at least) on available modes"""
+    cs = rng.randint(2, max_cs)
+    names = NAMES[:]
+    rng.shuffle(names)
+    ops = [{"op": "add", "at": off, "leaf": leaf} for off, leaf in gen_ops(rng, cs, rng.randint(0, 3))]
+    extra = []
+    taken = set()
+    if cs >= 3 and rng.random() < 0.35:
+        h = rng.randrange(cs)
+        extra.append({"op": "herald", "mode": h, "exp": rng.randint(0, 1), "name": None})
+        taken.add(h)
+    for _ in range(rng.choice([1, 2, 2, 3])):
+        enc = rng.choice(["RAW", "DUAL_RAIL", "DUAL_RAIL"])
+        w = 1 if enc == "RAW" else 2
+        cands = [m for m in range(cs - w + 1) if not any(x in taken for x in range(m, m + w))]
+        if not cands:
+            continue
+        m = rng.choice(cands)
+        extra.append({"op": "port", "mode": m, "enc": enc, "name": names.pop(), "loc": rng.choice(["OUTPUT", "IN_OUT"])})
+        taken.update(range(m, m + w))
+    return {"cs": cs, "ops": ops + extra}
+
+
+def gen_right_ports(rng, max_m):
+    """a component, a circuit, or a processor with input ports (one-mode and two-mode) and maybe heralds"""
+    u = rng.random()
+    if u < 0.2:
+        return {"kind": "leaf", "leaf": gens.gen_leaf(rng, max_m, LEAF_KINDS)}
+    if u < 0.3:
+        m = rng.randint(1, max_m)
+        return {"kind": "circ", "m": m, "ops": gen_ops(rng, m, rng.randint(1, 3))}
+    nh = rng.choice([0, 0, 1, 2])
+    m = rng.randint(1, max_m)
+    cs = m + nh
+    names = ["r" + n for n in NAMES]
+    rng.shuffle(names)
+    modes = list(range(cs))
+    rng.shuffle(modes)
+    extra = [{"op": "herald", "mode": h, "exp": rng.randint(0, 1), "name": None} for h in modes[:nh]]
+    taken = set(modes[:nh])
+    for _ in range(rng.choice([1, 2, 2])):
+        enc = rng.choice(["RAW", "DUAL_RAIL", "DUAL_RAIL"])
+        w = 1 if enc == "RAW" else 2
+        cands = [x for x in range(cs - w + 1) if not any(y in taken for y in range(x, x + w))]
+        if not cands:
+            continue
+        x = rng.choice(cands)
+        extra.append({"op": "port", "mode": x, "enc": enc, "name": names.pop(), "loc": rng.choice(["INPUT", "IN_OUT"])})
+        taken.update(range(x, x + w))
+    ps = None
+    rest = sorted(modes[nh:])
+    if rng.random() < 0.25:
+        ps = gen_ps(rng, rest, 1)
+        extra.append({"op": "ps", "ps": ps})
+    n_ops = rng.randint(1, 3)
+    return {"kind": "proc", "cs": cs, "whole": rng.random() < 0.5, "ops": gen_ops(rng, cs, n_ops), "extra": extra,
+            "at": [n_ops for _ in extra], "ps_ast": ps}
+
+
+def gen_scenario_dict(rng, max_cs):
+    """1-2 adds through dictionary mappings written with every key form; ~45% carry exactly one fault of DICT_FAULTS"""
+    for _ in range(20):
+        left = gen_left_ports(rng, max_cs)
+        if len(left_shape(left)) >= 2:
+            break
+    steps = []
+    for i in range(rng.choice([1, 1, 2])):
+        shape = evolved_shape(left, steps)
+        avail = shape[1]
+        right = gen_right_ports(rng, max(1, min(len(avail), 4)))
+        n, hs = right_shape(right)
+        rm = [x for x in range(n + len(hs)) if x not in hs]
+        if len(avail) < n:
+            continue
+        # prefer assignments that keep two-mode ports together, in order or crossed
+        keys = rng.sample(avail, n)
+        if rng.random() < 0.6:
+            runs = [s_ for s_ in range(shape[0]) if all(s_ + j in avail for j in range(n))]
+            if runs:
+                s0 = rng.choice(runs)
+                keys = list(range(s0, s0 + n))
+                if rng.random() < 0.3:
+                    rng.shuffle(keys)
+        vals = rm[:]
+        if rng.random() < 0.4:
+            rng.shuffle(vals)
+        fault = rng.choice(DICT_FAULTS) if rng.random() < 0.45 else None
+        steps.append({"right": right, "keep_port": rng.random() < 0.6, "reuse": False,
+                      "map": {"form": "forms", "items": [[k, v] for k, v in zip(keys, vals)], "fault": fault}})
+    if not steps:
+        raise GenInvalid("no room for a dictionary mapping")
+    return {"left": left, "steps": steps}
+
+
 # ---- right-hand sides that engage the automatic simplification of the inserted segment ----------------------
 def gen_perm_asym(rng, w):
     """a permutation of w >= 3 modes that is not its own inverse (contains a cycle of length >= 3)"""
@@ -1331,6 +1646,8 @@ class Runner:
         self.shrunk = []
 
     def ask(self, req):
+        if isinstance(req, list):
+            return self.chk.lean.ask_many(req)
         return self.chk.lean.ask(req)
 
     def on_step(self, i, st, L, info):
@@ -1345,6 +1662,17 @@ class Runner:
         chk.branch("form-" + ms["form"])
         if ms["form"] == "dict" and any(isinstance(k, str) for k, _ in ms["items"]):
             chk.branch("port-names")
+        if ms["form"] == "dict":
+            for k, v in ms["items"]:
+                chk.branch("dict-" + item_form(k, v))
+            if st.get("fault"):
+                chk.branch("dictfault-" + st["fault"])
+                chk.count("dict_fault_outcome", f"{st['fault']}/{'comp' if R['comp'] else 'proc'}/"
+                                                f"{info.get('err', 'ACCEPTED')}")
+            if info.get("unjudged"):
+                chk.branch("dict-left-mode-twice")
+        if info.get("err") == "RuntimeError":
+            chk.branch("ps-runtime-refused")
         if L.get("after_rejection"):
             chk.branch("continued-after-rejection")
         # mappings that reach a reserved mode of the processor as its history left it
@@ -1394,6 +1722,25 @@ class Runner:
                 chk.branch("same-object-twice")
             if any(d is not None for d in R["dets"]):
                 chk.branch("herald-detectors")
+            if not R["comp"] and "after" in info and rep.get("full") is not None:
+                # what became of the non-herald ports of the added processor
+                after = info["after"]
+                inv = {v: k for k, v in rep["full"]}
+                for side in ("inp", "outp"):
+                    for x in R[side]:
+                        if x[3]:
+                            continue
+                        img = [inv.get(x[0] + j) for j in range(x[1])]
+                        if None in img or img != list(range(img[0], img[0] + x[1])):
+                            chk.branch(f"port-{side}-dropped-crossed")
+                        elif any(q[0] == img[0] and q[1] == x[1] and q[2] == x[2] for q in after[side]):
+                            chk.branch(f"port-{side}-reattached")
+                        else:
+                            chk.branch(f"port-{side}-dropped-occupied")
+                if R["heralds"]:
+                    chk.branch("herald-input-port")
+                if R["has_ps"] and L.get("has_ps"):
+                    chk.branch("ps-merged")
             if not R["comp"] and "after" in info:
                 # which rewriting rules of the automatic simplification the inserted segment can trigger
                 if st["right"]["kind"] == "scn":
@@ -1431,7 +1778,7 @@ def finalize_named(scn, rng):
 def prepare(scn, rng):
     """resolve `named` mappings: needs the state of the left processor at that step, so run the real code once
     on a throw-away copy (no comparison), falling back to an int dict when a step fails."""
-    if not any(st["map"]["form"] == "named" for st in scn["steps"]):
+    if not any(st["map"]["form"] in ("named", "forms") for st in scn["steps"]):
         return scn
     scn = copy.deepcopy(scn)
     try:
@@ -1441,6 +1788,11 @@ def prepare(scn, rng):
             if st["map"]["form"] == "named":
                 L, R = observe_proc(p), observe_right(right)
                 st["map"] = {"form": "dict", "items": name_items(st["map"]["items"], L, R, rng)}
+            elif st["map"]["form"] == "forms":
+                L, R = observe_proc(p), observe_right(right)
+                items, done = dict_forms(st["map"]["items"], L, R, rng, st["map"].get("fault"))
+                st["map"] = {"form": "dict", "items": items}
+                st["fault"] = done
             try:
                 p.add(py_mapping(st["map"]), right, keep_port=st.get("keep_port", True))
             except Exception as e:
@@ -1449,7 +1801,7 @@ def prepare(scn, rng):
     except Exception:
         pass
     for st in scn["steps"]:
-        if st["map"]["form"] == "named":
+        if st["map"]["form"] in ("named", "forms"):
             st["map"] = {"form": "dict", "items": st["map"]["items"]}
     return scn
 
@@ -1632,7 +1984,12 @@ def run(chk: core.Check):
                              "simp-perm-successive-noncommuting", "simp-perm-nonsuccessive", "simp-ps-merge",
                              "simp-ps-merge-across-perm", "simp-ps-merge-across-asym-perm",
                              "simp-ps-direction-sensitive", "simp-ps-decoy", "simp-ps-cancel", "simp-ps-null",
-                             "simp-ps-blocked-behind-perm"]
+                             "simp-ps-blocked-behind-perm",
+                             "dict-int-int", "dict-name-int", "dict-name-list", "dict-name-name", "dict-int-list",
+                             "dict-int-name", "dict-left-mode-twice"] + ["dictfault-" + f for f in DICT_FAULTS] + \
+                            ["port-inp-reattached", "port-outp-reattached", "port-inp-dropped-crossed",
+                             "port-outp-dropped-crossed", "port-inp-dropped-occupied", "port-outp-dropped-occupied",
+                             "herald-input-port", "ps-merged", "ps-runtime-refused"]
     chk.lean = core.LeanDriver("C10")
     runner = Runner(chk)
     rng = chk.rng
@@ -1662,6 +2019,18 @@ def run(chk: core.Check):
         try:
             handle(chk, runner, scn)
             chk.count("generator", "reserved-mode-family")
+        except core.LeanError:
+            raise
+        except GenInvalid:
+            chk.count("generator", "invalid-construction")
+    # dictionary mappings written through every key form (port names on either side, lists, int keys with list /
+    # port-name values), ~45% with one fault; left and right objects carry one- and two-mode ports
+    n_d = chk.pick(450, 5000)
+    for i in range(n_d):
+        try:
+            scn = prepare(gen_scenario_dict(rng, max_cs), rng)
+            handle(chk, runner, scn)
+            chk.count("generator", "dict-forms-family")
         except core.LeanError:
             raise
         except GenInvalid:
